@@ -371,7 +371,13 @@ impl Sim {
             let node = &mut self.nodes[idx];
             let mut apps: Vec<&mut dyn FdlApplication> = node.apps.iter_mut().map(|a| &mut **a as &mut dyn FdlApplication).collect();
             if apps.is_empty() {
-                node.fdl.poll(Instant::from_micros(t), &mut node.phy, &mut ());
+                // no applications: through poll() with the unit application or through poll_multi() with an
+                // empty list, by address
+                if node.addr % 2 == 0 {
+                    node.fdl.poll(Instant::from_micros(t), &mut node.phy, &mut ());
+                } else {
+                    node.fdl.poll_multi(Instant::from_micros(t), &mut node.phy, &mut []);
+                }
             } else if apps.len() == 1 {
                 node.fdl.poll(Instant::from_micros(t), &mut node.phy, apps[0]);
             } else {
